@@ -365,7 +365,7 @@ impl Property for C19 {
         vec![("sequential", 2), ("concurrent", 2), ("replicated", 1)]
     }
     fn budget(&self) -> (u64, u64) {
-        (20_000, 600_000)
+        (100_000, 2_000_000)
     }
     fn rule(&self) -> &'static str {
         "1-6 plain and versioned writes (versions 0-5: below, at and above the current one, every value unique) to 1-2 keys of a database created with the newer strategy (or of $admin): sequential with background snapshots in between (reply = stored value = this write's value, no refusal, version never decreases, watcher notified iff the value changed); from two concurrent direct sessions under lock-level interleavings (history linearizable against 'store your value or keep the current one, reply with what is stored'); and replicated from the primary to 1-2 secondaries (replicas hold the primary's values at quiescence). Non-trivial: at least one stale versioned write (sequential/replicated) or two writes to one key overlapped (concurrent). distinct = distinct (program, task-switch sequence)."
